@@ -16,6 +16,8 @@ relation declarations, `recordsNow` = what `update_time_variables` appends, deci
 * values: `last_is_attr` — the solver model's live attributes equal the last record
   (`C03.Coherent`), and each record is appended from the attributes just computed (`compute`);
   kinds of samples are enforced by the typed setters (checked by the harness);
+* `record_shape` / `schedule_record_shape`: in the solver model every recorded instant of every schedule holds
+  exactly one position, speed, acceleration, driving, load and net torque per element of the chain;
 * consequently export and snapshot, which zip every advertised list with the time axis, cannot
   hit a length mismatch (`export_total`).
 -/
@@ -162,6 +164,62 @@ theorem last_is_attr (c : Cfg) (s s' : St) (t : Q) (hinv : s.locked = true → c
       s'.pwm = r.pwm ∧ s'.mtorque = some (r.torque.headD 0) := by
   obtain ⟨r, hr, _, _, _, hp, hv, ha, hw, _, hm⟩ := compute_recOK c s s' t hinv h
   exact ⟨r, by rw [hr]; simp, hp, hv, ha, hw, hm⟩
+
+/-! ### the solver model's records: one sample per element per instant -/
+theorem coupled_length : ∀ (rs xs : List Q), Coupled rs xs → xs.length = rs.length + 1
+  | [], [_], _ => rfl
+  | [], [], h => by simp [Coupled] at h
+  | [], _ :: _ :: _, h => by simp [Coupled] at h
+  | _ :: _, [], h => by simp [Coupled] at h
+  | _ :: _, [_], h => by simp [Coupled] at h
+  | _ :: rs, _ :: b :: vs, h => by
+    have := coupled_length rs (b :: vs) h.2
+    simp at this ⊢; omega
+
+theorem driveOK_length : ∀ (ls : List Link) (xs : List Q), DriveOK ls xs → xs.length = ls.length + 1
+  | [], [_], _ => rfl
+  | [], [], h => by simp [DriveOK] at h
+  | [], _ :: _ :: _, h => by simp [DriveOK] at h
+  | _ :: _, [], h => by simp [DriveOK] at h
+  | _ :: _, [_], h => by simp [DriveOK] at h
+  | _ :: ls, _ :: b :: vs, h => by
+    have := driveOK_length ls (b :: vs) h.2
+    simp at this ⊢; omega
+
+theorem loadOK_length : ∀ (ls : List Link) (xs : List Q), LoadOK ls xs → xs.length = ls.length + 1
+  | [], [_], _ => rfl
+  | [], [], h => by simp [LoadOK] at h
+  | [], _ :: _ :: _, h => by simp [LoadOK] at h
+  | _ :: _, [], h => by simp [LoadOK] at h
+  | _ :: _, [_], h => by simp [LoadOK] at h
+  | _ :: ls, _ :: b :: vs, h => by
+    have := loadOK_length ls (b :: vs) h.2
+    simp at this ⊢; omega
+
+/-- a record that obeys the record law holds exactly one sample per element for each of the six kinematic and
+    torque variables -/
+theorem record_shape (c : Cfg) (r : Rec) (h : RecOK c r) :
+    r.pos.length = c.links.length + 1 ∧ r.speed.length = c.links.length + 1 ∧ r.acc.length = c.links.length + 1 ∧
+    r.dtorque.length = c.links.length + 1 ∧ r.ltorque.length = c.links.length + 1 ∧
+    r.torque.length = c.links.length + 1 := by
+  have hp := coupled_length _ _ h.pos
+  have hv := coupled_length _ _ h.speed
+  have ha := coupled_length _ _ h.acc
+  have hd := driveOK_length _ _ h.drive
+  have hl := loadOK_length _ _ h.load
+  simp only [List.length_map] at hp hv ha
+  refine ⟨hp, hv, ha, hd, hl, ?_⟩
+  rw [h.net, List.length_zipWith, hd, hl]; simp
+
+/-- **One sample per element per instant, for every history**: after any schedule of runs, resets and attribute
+    changes every recorded instant holds exactly one position, speed, acceleration, driving, load and net torque per
+    element of the chain -/
+theorem schedule_record_shape (c : Cfg) (ops : List Op) (p v : Q) (s' : St)
+    (he : exec c ops (St.init p v) = .ok s') : ∀ r ∈ s'.recs,
+    r.pos.length = c.links.length + 1 ∧ r.speed.length = c.links.length + 1 ∧ r.acc.length = c.links.length + 1 ∧
+    r.dtorque.length = c.links.length + 1 ∧ r.ltorque.length = c.links.length + 1 ∧
+    r.torque.length = c.links.length + 1 :=
+  fun r hr => record_shape c r (all_records_ok c ops _ s' (Gearpy.init_inv c p v) he r hr)
 
 /-! ### non-vacuity: the D6 configuration (worm wheel with module and face width, worm without
     reference diameter) after run, reset, run -/
